@@ -295,7 +295,7 @@ def gen_schedule(rng, tier, precision=None, allow_shrink=False):
         flipper = {'timestep': rng.choice([1, 2]), 'script': [rng.random() < 0.5 for _ in range(rng.choice([2, 3]))]}
     calls = []
     for _ in range(rng.choice([1, 1, 2, 3])):
-        calls.append({'interval': rng.choice(RUNS if precision is None else [0.5, 1, 2, 3]),
+        calls.append({'interval': rng.choice(RUNS if precision is None else [0.1, 0.2, 0.3, 0.5, 0.7, 1, 2, 3]),
                       'force': rng.random() < 0.5})
     calls[-1]['force'] = True if rng.random() < 0.7 else calls[-1]['force']
     if rng.random() < 0.15:
